@@ -621,7 +621,7 @@ func (*Catalog) enumDirectiveToUserRule(d *directive.Directive, e *enum.Enum) (*
 
 	for _, v := range vv {
 		r.Children = append(r.Children, Rule{
-			TokenType:   RuleTokenType(v.Type.ToTokenType()),
+			TokenType:   enumValueTokenType(v),
 			ScalarValue: v.Value.Unquote().String(),
 			Note:        v.Comment,
 		})
@@ -632,6 +632,17 @@ func (*Catalog) enumDirectiveToUserRule(d *directive.Directive, e *enum.Enum) (*
 		Value:      r,
 		Directive:  d,
 	}, nil
+}
+
+// enumValueTokenType returns the token type of a value of the ENUM directive.
+// The type guessed by the schema library cannot be used for a string: it tries
+// its candidates in the order of a map, and a string which contains a dot and
+// no "e" satisfies the candidate "float" as well.
+func enumValueTokenType(v enum.Value) RuleTokenType {
+	if b := v.Value.Data(); len(b) >= 2 && b[0] == '"' && b[len(b)-1] == '"' {
+		return RuleTokenTypeString
+	}
+	return RuleTokenType(v.Type.ToTokenType())
 }
 
 func (c *Catalog) AddOperationID(d directive.Directive, id string) error {
